@@ -28,6 +28,9 @@ type FaultCall struct {
 	Skip  bool   `json:"skip_fast"`
 	Flush int     `json:"flush,omitempty"` // flush threshold of the faulted handle (0 = 100000: one physical write per operation)
 	Multi [][]int `json:"multi,omitempty"` // additional multi-fault position sets (1-based, relative)
+	// NoLoad: the call is the FIRST call on a brand-new handle (no Load before it): whatever the handle has to discover
+	// about the store (latest / first version, legacy versions, index label) is discovered under the faults
+	NoLoad bool `json:"no_load,omitempty"`
 }
 
 type FaultCase struct {
@@ -208,7 +211,12 @@ func execCall(tr *iavl.MutableTree, c FaultCall, importNodes []*iavl.ExportNode)
 		if err != nil {
 			return callResult{err: err}
 		}
-		return callResult{res: fmt.Sprintf("%d %x %s get=%q nil=%v", lv, tr.Hash(), sb.String(), g, g == nil)}
+		// ... and what it says about the version range
+		glv, err := tr.GetLatestVersion()
+		if err != nil {
+			return callResult{err: err}
+		}
+		return callResult{res: fmt.Sprintf("%d %x %s get=%q nil=%v exists=%v available=%v latest=%d", lv, tr.Hash(), sb.String(), g, g == nil, tr.VersionExists(c.N), tr.AvailableVersions(), glv)}
 	case "statechanges":
 		it, err := imm()
 		if err != nil {
@@ -364,7 +372,7 @@ func runFault(c FaultCase) (v *Violation, st faultStats) {
 		tdb := NewTraceDBOn(img)
 		tdb.NoJournal = true
 		tr := iavl.NewMutableTree(tdb, call.Cache, call.Skip, iavl.NewNopLogger(), opts...)
-		if call.Kind != "loadversion" && call.Kind != "import" {
+		if call.Kind != "loadversion" && call.Kind != "import" && !call.NoLoad {
 			if _, err := tr.Load(); err != nil {
 				return callResult{}, nil, nil, err
 			}
@@ -550,6 +558,13 @@ func genFaultCall(t *rapid.T, w *World) FaultCall {
 			c.K = []byte(rapid.SampledFrom(absent).Draw(t, "fk"))
 		}
 	}
+	switch c.Kind {
+	case "get", "has", "getwithindex", "getbyindex", "iterate", "iterator", "proof", "nonmembership_proof", "getversioned", "getimmutable_hash",
+		"export", "statechanges", "versioned_proof", "membership_proof", "prune", "dvf", "lvfo":
+		// (not versionexists_available: VersionExists / AvailableVersions have no error result, so a fault met inside them is
+		// outside the property; what they say AFTER a load that succeeded under a fault is part of the loadversion call)
+		c.NoLoad = rapid.IntRange(0, 2).Draw(t, "noLoad") == 0
+	}
 	if isWriteCall(c.Kind) && rapid.IntRange(0, 5).Draw(t, "smallFlush") == 0 {
 		// automatic flushes inside the operation: only the error-vs-success oracle applies (the store left behind by a
 		// failed multi-batch operation is the F7 family)
@@ -614,7 +629,7 @@ func TestC17(t *testing.T) {
 		for _, k := range ks {
 			Count("C17", "faulted_"+k, st.kinds[k])
 		}
-		RecordCase("C17", c, st.positions >= 2 && st.errored >= 1, map[string]bool{"call_" + call.Kind: true, "write_call": isWriteCall(call.Kind)})
+		RecordCase("C17", c, st.positions >= 2 && st.errored >= 1, map[string]bool{"call_" + call.Kind: true, "write_call": isWriteCall(call.Kind), "first_call_on_a_new_handle": call.NoLoad})
 	})
 }
 
